@@ -14,7 +14,7 @@ def sh(cmd, cwd=None, env=None):
     return p.returncode, p.stdout
 
 def run(seed, tier):
-    sd = os.path.join(VERIF, "seeded", seed)
+    sd = os.path.join(os.environ.get("SEED_DIR") or os.path.join(VERIF, "seeded"), seed)
     wt = tempfile.mkdtemp(prefix="sm-", dir="/tmp"); os.rmdir(wt)
     evd = tempfile.mkdtemp(prefix="smev-", dir="/tmp")
     res = {"seed": seed, "fires": {}, "errors": {}}
@@ -53,7 +53,8 @@ def run(seed, tier):
 
 if __name__ == "__main__":
     tier = sys.argv[1] if len(sys.argv) > 1 else "quick"
-    seeds = sys.argv[2:] or sorted(d for d in os.listdir(os.path.join(VERIF, "seeded")) if os.path.isdir(os.path.join(VERIF, "seeded", d)))
+    sroot = os.environ.get("SEED_DIR") or os.path.join(VERIF, "seeded")
+    seeds = sys.argv[2:] or sorted(d for d in os.listdir(sroot) if os.path.isdir(os.path.join(sroot, d)))
     with ThreadPoolExecutor(8) as ex:
         results = list(ex.map(lambda s: run(s, tier), seeds))
     caught = 0
